@@ -1069,51 +1069,6 @@ fn header_chain_break(ast: &Ast, cbt: u8) -> bool {
     false
 }
 
-/// F-C11-4: the line directly after the header of an indented block (Block / match arms / switch
-/// arms) is blank: the EmptyLine trivia item makes `strip_trailing_breaks` pop the block's
-/// `StartBlock` break.
-fn blank_after_header(src: &str, ast: &Ast, toks: &[Tk]) -> bool {
-    let lines: Vec<&str> = src.split('\n').collect();
-    let mut code_line = vec![false; lines.len() + 1];
-    for t in toks {
-        if !matches!(t.token, Token::Whitespace | Token::NewLine | Token::CommentSingle | Token::CommentMulti) {
-            for l in t.line..=t.eline {
-                if (l as usize) < code_line.len() {
-                    code_line[l as usize] = true;
-                }
-            }
-        }
-    }
-    let mut firsts = vec![];
-    for n in ast.nodes() {
-        match &n.node {
-            Node::Block(b) if !b.is_empty() => firsts.push(span_of(ast, b[0]).start.line as usize),
-            Node::Match { arms, .. } if !arms.is_empty() => firsts.push(span_of(ast, arms[0]).start.line as usize),
-            Node::Switch(arms) if !arms.is_empty() => firsts.push(span_of(ast, arms[0]).start.line as usize),
-            _ => {}
-        }
-    }
-    for s in firsts {
-        if s == 0 {
-            continue;
-        }
-        let mut h = s - 1;
-        loop {
-            if code_line[h] {
-                break;
-            }
-            if h == 0 {
-                break;
-            }
-            h -= 1;
-        }
-        if code_line[h] && h + 1 < s && lines.get(h + 1).is_some_and(|l| l.trim().is_empty()) {
-            return true;
-        }
-    }
-    false
-}
-
 fn is_block_construct(n: &Node) -> bool {
     match n {
         Node::For(_) | Node::While { .. } | Node::Until { .. } | Node::Loop { .. } | Node::Match { .. } | Node::Switch(_) | Node::Try(_) => true,
@@ -1155,40 +1110,11 @@ fn ends_in_block(ast: &Ast, i: AstIndex, depth: u32) -> bool {
 }
 
 fn static_shapes(src: &str, ast: &Ast, toks: &[Tk]) -> Vec<&'static str> {
+    // (the shapes of F-C11-1 wildcard import, F-C11-2 format representation and F-C11-4 blank line
+    // after a block header were removed when those findings were fixed: 03b99c3, 7549768, e85457a)
     let mut v = vec![];
-    for n in ast.nodes() {
-        match &n.node {
-            Node::Import { items, .. } if items.is_empty() => v.push("wildcard_import"),
-            Node::Str(s) => {
-                if let StringContents::Interpolated(ns) = &s.contents {
-                    for x in ns {
-                        if let StringNode::Expression { format, .. } = x {
-                            if format.representation.is_some() {
-                                v.push("fmt_repr");
-                            }
-                        }
-                    }
-                }
-            }
-            Node::Chain((ChainNode::Str(s), _)) => {
-                if let StringContents::Interpolated(ns) = &s.contents {
-                    for x in ns {
-                        if let StringNode::Expression { format, .. } = x {
-                            if format.representation.is_some() {
-                                v.push("fmt_repr");
-                            }
-                        }
-                    }
-                }
-            }
-            _ => {}
-        }
-    }
     if !slice_shifted_tokens(src, toks).is_empty() || (src.contains("#[fmt:") && !src.is_ascii()) {
         v.push("slice_shifted");
-    }
-    if blank_after_header(src, ast, toks) {
-        v.push("blank_after_header");
     }
     // F-C11-9: an operator whose operand is / ends in an indented block (the parser reads a line that
     // starts with an operator as a continuation of the block-ending expression in front of it)
@@ -1715,7 +1641,7 @@ impl Gen {
         }
     }
     fn fmt_spec(&mut self) -> String {
-        // every combination except `representation` (excluded shape: F-C11-2)
+        // every combination of fill / alignment / width / precision / representation
         let mut s = String::new();
         match self.rng.below(5) {
             0 => {
@@ -1732,6 +1658,9 @@ impl Gen {
         }
         if self.rng.chance(1, 3) {
             s.push_str(&format!(".{}", self.rng.below(5)));
+        }
+        if self.rng.chance(1, 4) {
+            s.push_str(*self.rng.pick(&["?", "x", "X", "b", "o", "e", "E"]));
         }
         s
     }
@@ -1853,9 +1782,8 @@ impl Gen {
     }
     fn block(&mut self, ind: usize, d: u32, n: usize) {
         let k = 1 + self.rng.below(n.max(1));
-        for i in 0..k {
-            // no blank line directly after a block header (excluded shape: F-C11-4)
-            self.trivia(ind, i > 0);
+        for _i in 0..k {
+            self.trivia(ind, true);
             self.stmt(ind, d);
         }
     }
@@ -1923,12 +1851,13 @@ impl Gen {
             }
             3 => {
                 // export / import forms that run anywhere
-                let t = match self.rng.below(6) {
+                let t = match self.rng.below(7) {
                     0 => { let v = self.fresh("ex"); let e = self.num(1); self.nums.push(v.clone()); format!("export {v} = {e}") }
                     1 => "from number import pi, e as euler".to_string(),
                     2 => "import string".to_string(),
                     3 => "from list import first, last".to_string(),
                     4 => "import number as num_mod, list".to_string(),
+                    5 => "from number import *".to_string(),
                     _ => "from koto import type as type_of".to_string(),
                 };
                 if self.in_fn == 0 && self.in_loop == 0 && ind == 0 { self.line(ind, &t) } else { self.print(ind, 1) }
@@ -2270,11 +2199,8 @@ fn mutants(src: &str, rng: &mut Rng, n: usize) -> Vec<String> {
 
 /// (finding id, shape on the input program, clause prefixes the finding can explain)
 const FINDINGS: &[(&str, &str, &[&str])] = &[
-    ("F-C11-1", "wildcard_import", &["2:reparse", "5:error-on-own-output", "3:behaviour"]),
-    ("F-C11-2", "fmt_repr", &["2:ast", "3:behaviour", "6:literals"]),
     ("F-C11-3", "slice_shifted", &["1:panic", "2:", "3:", "4:", "5:", "6:"]),
     ("F-C11-3", "slice_shifted_in_first_pass_output", &["5:"]),
-    ("F-C11-4", "blank_after_header", &["2:reparse", "5:error-on-own-output", "3:behaviour"]),
     ("F-C11-5", "nested_chain_break", &["2:", "3:", "5:"]),
     ("F-C11-6", "input_line_wider_than_line_length", &["2:", "3:", "5:"]),
     ("F-C11-7", "fmt_skip", &["2:", "3:", "5:"]),
